@@ -186,7 +186,12 @@ where
                 WaitMode::Block => limiter.until_key_ready(peer_id).await,
                 WaitMode::ReturnError => {
                     if let Err(e) = limiter.check_key(peer_id) {
-                        let wait_time = e.wait_time_from(clock.now());
+                        // The clock is read again here, after the limiter made its decision: by now
+                        // the cell may already be available, which would make the hint zero. A
+                        // refusal always tells the caller to wait for a positive amount of time.
+                        let wait_time = e
+                            .wait_time_from(clock.now())
+                            .max(std::time::Duration::from_nanos(1));
                         return Err(anemo::rpc::Status::new(
                             anemo::types::response::StatusCode::TooManyRequests,
                         )
